@@ -12,6 +12,54 @@ CLAIMED = {
         "note": "Assumes the Python tokenizer, int(text, 0) and decimal.Decimal behave as documented; constructor tables are bounded in token count (5 quick / 7 thorough).",
         "design_ref": "DESIGN.md section 4, C01",
     },
+    "C03": {
+        "technique": "decision table of the guard template AbstractFieldFormat.validated by abstract interpretation (EMPTY/BLANKS/TEXT x format x flags x per-character verdicts x length orderings) plus override / guard-state / argument-forwarding rules over all field classes",
+        "text": "The guard template is decided for every abstract cell, format, flag and collaborator outcome; no shipped field class can bypass it (no override, no re-assignment of guard state, flags forwarded unchanged).",
+        "note": "Range.validate semantics are C01's; fixed-width cells wider than their field are not compared (cannot come from the fixed reader).",
+        "design_ref": "DESIGN.md section 4, C03",
+    },
+    "C04": {
+        "technique": "event-trace decision tables of BaseValidator.validate_row and Reader.rows by abstract interpretation with recording collaborators; region-representative table of Location rendering; copy rule for error locations",
+        "text": "validate_row decided for every row width, cell kind and collaborator outcome (count check, column order, cursor on the culprit, first failure wins, error names the field and carries a copy of the cursor); cursor line = raw row index for every header/limit ordering; Location renders 1-based.",
+        "note": "Per-field and per-check verdicts are C02/C03/C05's; raw readers are C12-C16's.",
+        "design_ref": "DESIGN.md section 4, C04",
+    },
+    "C05": {
+        "technique": "abstract interpretation of IsUniqueCheck / DistinctCountCheck on all row sequences over a two-letter alphabet of equality atoms with one moving location cursor; reset-completeness rule",
+        "text": "Duplicate detection over all key fields, located at the later row with see-also at the first occurrence (copy), forgotten by reset; distinct count = number of distinct values, end verdict iff expression false; checks see only fully accepted rows.",
+        "note": "eval() of the comparison text is trusted; sequences bounded at 3 rows quick / 4 thorough (alphabet of two values per key field).",
+        "design_ref": "DESIGN.md section 4, C05",
+    },
+    "C06": {
+        "technique": "event-trace decision tables of Reader.rows and validio.rows by abstract interpretation over modes x row outcomes x container faults at every row boundary",
+        "text": "Per-row oracle shared by the three modes (same row object returned, own error yielded/raised, counters move exactly once per data row and add up), container faults stop reading in every mode, errors keep copies of the cursor.",
+        "note": "Which exceptions the raw readers convert into DataFormatError is C10's escape analysis; 0..3 raw rows per run.",
+        "design_ref": "DESIGN.md section 4, C06",
+    },
+    "C07": {
+        "technique": "abstract interpretation of Reader.rows / validio.rows / validio.validate with header and limit as order symbols (all orderings against raw row numbers)",
+        "text": "Row k is skipped iff k <= header, validated iff header < k <= limit, returned unvalidated beyond the limit; validate() stops after limit returned rows and does not start for limit 0.",
+        "note": "0..3 raw rows per run; --until mapping decided in C18.",
+        "design_ref": "DESIGN.md section 4, C07",
+    },
+    "C08": {
+        "technique": "typestate 'reset before use per run' decided by abstract interpretation of all operation histories on one CID with recording checks; reset-completeness and no-shared-state rules",
+        "text": "All histories of 2 (thorough 3) operations from 10 reader/writer/API operations: every check is reset before its first use in each operation; reset() re-initialises everything a check mutates; no class-level mutable state.",
+        "note": "Plugin checks must implement reset() completely.",
+        "design_ref": "DESIGN.md section 4, C08",
+    },
+    "C14": {
+        "technique": "event-trace decision tables of Writer.__init__/write_row/close and the row writers by abstract interpretation (header orderings, validation outcomes, short/exact fixed cells, declared line delimiters)",
+        "text": "Validate before emit past the header, nothing emitted for a rejected row, writer usable afterwards, rows emitted unchanged / right-padded with blanks to the width, lines ended by the declared delimiter, close runs end checks and closes the delegate.",
+        "note": "Read-back equality is not decided (composition with C12/C13); 0..3 rows per run.",
+        "design_ref": "DESIGN.md section 4, C14",
+    },
+    "C20": {
+        "technique": "call-protocol event traces decided by abstract interpretation of validated / validate_row / Reader.rows / rows / validate / close / Writer with recording plugins; class-resolution tables",
+        "text": "Hook only for non-empty, allowed, in-length cells; columns in order, stop at first rejection; checks in declaration order after all cells passed; one reset before the first row; no calls outside the header/limit window; end verdicts once in order then cleanup; plugins resolve like built-ins.",
+        "note": "Plugins subclass the abstract bases directly; plugin code itself is not analysed.",
+        "design_ref": "DESIGN.md section 4, C20",
+    },
 }
 
 NOT_APPLICABLE = {}
